@@ -5,7 +5,7 @@
 //
 // Functional actions (one-step histories):
 //   SplitChar{s,d} SplitSet{s,d} Tokenize{s,d} Lcp{x,y} BeginsWith{x,y}
-//   UrlParse{u,q}  FnSplit{s} FnNameExt{s} FnDropExt{s} FnSetExt{s,x} FnAddExt{s,x} FnPlus{s,o}
+//   UrlParse{u,q}  FnSplit{s} FnNameExt{s} FnDropExt{s} FnSetExt{s,x} FnAddExt{s,x} FnPlus{s,o[,dflt]} FnRecompose{s}
 //   PrettyDouble{m,e} PrettyNumber{m,e}          (the input is m * 10^e)
 // ADT actions (ArgumentList, variant "list"; raw argc/argv + removeArgs, variant "acav"):
 //   Construct{v} Get{i} Remove{w,h} ParseAndRemove{cnt}; record mode: RemoveMod{w,h} GetMod{i}
@@ -250,10 +250,14 @@ struct World
       o.set("params", ps);
     } else if (a.compare(0, 2, "Fn") == 0) {
       std::string s = str(arg["s"]);
-      rkcommon::FileName f(s);
-      rkcommon::FileName fc(s.c_str());
-      o.set("str", f.str() == fc.str() ? S(f.str()) : Json("constructors disagree"));
+      bool dflt = arg.has("dflt") && arg["dflt"].boolean();
+      rkcommon::FileName f = dflt ? rkcommon::FileName() : rkcommon::FileName(s);  // std::string constructor
+      rkcommon::FileName fc(s.c_str());                                            // const char* constructor
+      o.set("str", S(f.str()));
       if (a == "FnSplit") {
+        o.set("str_c", S(fc.str()));
+        o.set("conv", S((std::string)f));
+        o.set("cstr", S(std::string(f.c_str())));
         o.set("path", S(f.path()));
         o.set("base", S(f.base()));
       } else if (a == "FnNameExt") {
@@ -262,18 +266,29 @@ struct World
       } else if (a == "FnDropExt") {
         o.set("res", S(f.dropExt().str()));
       } else if (a == "FnSetExt") {
-        o.set("res", S(f.setExt(str(arg["x"])).str()));
+        std::string x = str(arg["x"]);
+        o.set("res", S(f.setExt(x).str()));
+        if (x.empty()) o.set("res_default", S(f.setExt().str()));
       } else if (a == "FnAddExt") {
-        o.set("res", S(f.addExt(str(arg["x"])).str()));
+        std::string x = str(arg["x"]);
+        o.set("res", S(f.addExt(x).str()));
+        if (x.empty()) o.set("res_default", S(f.addExt().str()));
       } else if (a == "FnPlus") {
+        // both overloads; a const char* right operand is ambiguous between them and does not compile
         std::string os = str(arg["o"]);
         rkcommon::FileName g(os);
         rkcommon::FileName r = f + g;
         rkcommon::FileName r2 = f + os;
         o.set("ostr", S(g.str()));
-        o.set("res", r == r2 ? S(r.str()) : Json("operator+ overloads disagree"));
+        o.set("res_fn", S(r.str()));
+        o.set("res_str", S(r2.str()));
         o.set("path", S(r.path()));
         o.set("base", S(r.base()));
+      } else if (a == "FnRecompose") {
+        rkcommon::FileName d(f.path());
+        o.set("dstr", S(d.str()));
+        o.set("res_fn", S((d + rkcommon::FileName(f.base())).str()));
+        o.set("res_str", S((d + f.base()).str()));
       } else {
         o.set("ret", "unknown action " + a);
       }
